@@ -219,31 +219,40 @@ structure RootState where
   y : Num
   num_iter : Int
 
+/-- The fallback abscissa of the loop body (`num_iter` already incremented):
+    `if num_iter % 2 == 0: x = (xl + xh) / 2.0  else: x = (xl * yh - xh * yl) / (yh - yl)`
+    (false position, bisecting every other time so that the bracket shrinks). -/
+def root_fallback (s : RootState) : PyRes Num :=
+  if imod (s.num_iter + 1) 2 = 0 then .ok ((s.xl + s.xh) / 2.0)
+  else pdiv (s.xl * s.yh - s.xh * s.yl) (s.yh - s.yl)
+
+/-- The new iterate `(x, y)` computed by the loop body of `root`. -/
+def root_next (o : Interp) (s : RootState) : PyRes (Num × Num) := do
+  let yp ← derivative o s.x
+  if plt (pabs yp) 1e-3 then
+    -- derivative too small: linear interpolation / bisection; y = self.__call__(x)
+    let x ← root_fallback s
+    let y ← call o x
+    pure (x, y)
+  else
+    -- x = x - y / yp
+    let q ← pdiv s.y yp
+    let x := s.x - q
+    -- if x < xl or x > xh: switch to linear interpolation or bisection
+    if plt x s.xl || plt s.xh x then
+      let x ← root_fallback s
+      let y ← call o x
+      pure (x, y)
+    else
+      let y ← call o x
+      pure (x, y)
+
 /-- One test-and-body of `while abs(y) > self._tol:` in `root`. -/
 def root_step (o : Interp) (max_iter : Int) (s : RootState) : Sum RootState (PyRes Num) :=
   if !(plt o.tol (pabs s.y)) then .inr (.ok s.x)          -- loop exit: return x
   else if s.num_iter ≥ max_iter then .inr (.error .valueError)
   else
-    let r : PyRes (Num × Num) := do
-      let yp ← derivative o s.x
-      if plt (pabs yp) 1e-3 then
-        -- x = (xl * yh - xh * yl) / (yh - yl); y = self.__call__(x)
-        let x ← pdiv (s.xl * s.yh - s.xh * s.yl) (s.yh - s.yl)
-        let y ← call o x
-        pure (x, y)
-      else
-        -- x = x - y / yp
-        let q ← pdiv s.y yp
-        let x := s.x - q
-        -- if x < xl or x > xh: switch to linear interpolation
-        if plt x s.xl || plt s.xh x then
-          let x ← pdiv (s.xl * s.yh - s.xh * s.yl) (s.yh - s.yl)
-          let y ← call o x
-          pure (x, y)
-        else
-          let y ← call o x
-          pure (x, y)
-    match r with
+    match root_next o s with
     | .error e => .inr (.error e)
     | .ok (x, y) =>
       -- if (y * yl) >= 0.0: xl = x; yl = y  else: xh = x; yh = y
